@@ -220,13 +220,19 @@ def gen_spec(rng, size=None, features=None):
                   'files': rng.sample(cands, rng.randint(0, min(1, len(cands)))),
                   'extra': pick_extra(),
                   'env': rng.choice([None, 'c%d' % i, 'a b %d' % i])}
-            if 'cmds' in feats and rng.random() < 0.4:
+            if 'cmds' in feats and rng.random() < 0.5:
                 # several commands in one step: shell state set by an earlier command (here
                 # the working directory) must still hold for the later ones
                 nd['chdir'] = 'wd%d' % i
                 # the leading commands as plain shell strings or as argument lists: file
                 # objects named in a LATER list-form line are dependencies either way
                 nd['chdir_str'] = rng.random() < 0.5
+                if rng.random() < 0.5:
+                    # ... or the whole step as ONE shell line (a compound command): the step's
+                    # environment must reach the program at its end, not just its first word
+                    nd['oneline'] = True
+                    nd['refs'] = []
+                    nd['env'] = nd['env'] or 'one line %d' % i
         elif kind == 'pch':
             if 'pch' not in feats:
                 continue
@@ -467,7 +473,11 @@ def render(spec, stub='vrec'):
             cmd = [repr(stub), repr('--id=%d' % i)] + [_ref(r) for r in nd['refs']]
             files = ', files=[%s]' % ', '.join(_ref(r) for r in nd['files']) if nd['files'] else ''
             envs = ", environment={'VF_E': %r}" % nd['env'] if nd.get('env') else ''
-            if nd.get('chdir') and nd.get('chdir_str'):
+            if nd.get('oneline'):
+                L.append("%s = command(%r, cmd=%r%s%s%s)"
+                         % (v, nd['name'], 'mkdir -p %s && cd %s && %s --id=%d'
+                            % (nd['chdir'], nd['chdir'], stub, i), files, envs, extra))
+            elif nd.get('chdir') and nd.get('chdir_str'):
                 L.append("%s = command(%r, cmds=[%r, %r, [%s]]%s%s%s)"
                          % (v, nd['name'], 'mkdir -p ' + nd['chdir'], 'cd ' + nd['chdir'],
                             ', '.join(cmd), files, envs, extra))
